@@ -373,9 +373,10 @@ class NdArr:
     `rows` : z3 Array Int -> Row (RowS) ; `tail`: tuple of trailing dims ; `dtype`: 'num' | 'object'
     A fully concrete small array may carry `data` (nested python lists of scalars) instead.
     """
-    __slots__ = ("rows", "n", "tail", "dtype", "data", "oid")
+    __slots__ = ("rows", "n", "tail", "dtype", "data", "oid", "single")
 
     def __init__(self, rows=None, n=None, tail=(), dtype="num", data=None):
+        self.single = False
         self.rows = rows
         self.n = n
         self.tail = tuple(tail)
